@@ -4,9 +4,14 @@
    total by construction. *)
 From Acme.C04 Require Import Spec Proofs_Noop Proofs_Pre Proofs_Refs Proofs_RegCor SpecSig Proofs_RegPre.
 
-Theorem error_is_noop : forall s o, Inv s -> is_err (snd (step s o)) = true -> fst (step s o) = s.
+(* The three theorems *_model below are statements about the MODEL: its error branches return the input
+   state (the only non-syntactic case is Node.RemoveInterface), and the model has no positions, sizes in
+   bits, descriptions or attribute values.  That a refused call of the IMPLEMENTATION changes nothing is
+   decided by the correspondence: the whole-pool snapshot before / after every failing call
+   (c06-error-mutates) and the step-by-step comparison of the complete model state. *)
+Theorem error_is_noop_model : forall s o, Inv s -> is_err (snd (step s o)) = true -> fst (step s o) = s.
 Proof. exact Proofs_Noop.error_is_noop. Qed.
-Print Assumptions error_is_noop.
+Print Assumptions error_is_noop_model.
 
 (* [pre], [viol], [doc_cause] (Acme.C04.Spec) are written from the doc comments of the Go methods in
    terms of the contents: children listed by the containers and their fields, never the indexes *)
@@ -20,16 +25,16 @@ Proof. exact Proofs_Pre.cause_spec_In. Qed.
 Print Assumptions cause_spec.
 
 (* layer 3 (SetType / SetUnit / SetEnum / AssignAttribute / RemoveAttributeAssignment / … / SetCANIDBuilder) *)
-Theorem error_is_noop3 : forall s o, Inv3 s -> is_err (snd (step3 s o)) = true -> fst (step3 s o) = s.
+Theorem error_is_noop3_model : forall s o, Inv3 s -> is_err (snd (step3 s o)) = true -> fst (step3 s o) = s.
 Proof. exact Proofs_Refs.error_is_noop3. Qed.
-Print Assumptions error_is_noop3.
+Print Assumptions error_is_noop3_model.
 
 (* layer 2 (AppendSignal / InsertSignal / RemoveSignal / RemoveAllSignals / Signal.UpdateName /
    MultiplexerSignal.InsertSignal / RemoveSignal / ClearSignalGroup / ClearAllSignalGroups and the
    signal constructors; every operation of layers 1 and 3 lifted): a refused call changes nothing *)
-Theorem error_is_noop2 : forall s o, Inv2 s -> is_err (snd (step2 s o)) = true -> fst (step2 s o) = s.
+Theorem error_is_noop2_model : forall s o, Inv2 s -> is_err (snd (step2 s o)) = true -> fst (step2 s o) = s.
 Proof. exact Proofs_RegCor.error_is_noop2. Qed.
-Print Assumptions error_is_noop2.
+Print Assumptions error_is_noop2_model.
 
 (* the documented preconditions of layers 3 and 2 ([pre3] / [viol3] / [doc_cause3], [pre2] / [viol2] /
    [doc_cause2] of Acme.C04.SpecSig) are written on the contents: the signals reachable from the
